@@ -110,13 +110,25 @@ pub fn run_case(ctx: &mut Ctx, fam: &str, _k: u64, r: &mut Rng) {
                     edits.push((k, T::from_f64(&d, &v)));
                     tracked_now[k] = true;
                 }
+                // early stopping / best-checkpoint: a parameter restored from a handle clone taken before training
+                let mut restores = vec![];
+                if r.chance(1, 3) {
+                    let k = r.below(n_params);
+                    if !edits.iter().any(|(j, _)| *j == k) {
+                        restores.push(k);
+                        tracked_now[k] = true;
+                    }
+                }
                 if !tracked_now.iter().any(|x| *x) {
                     let k = r.below(n_params);
                     freeze[k] = Some(false);
                     tracked_now[k] = true;
                 }
                 notes.push(format!("{}:rebuild freeze={:?} edits={:?}", t, freeze.iter().map(|f| match f { Some(true) => 'f', Some(false) => 'u', None => '-' }).collect::<String>(), edits.iter().map(|(k, _)| *k).collect::<Vec<_>>()));
-                iterations[t].rebuild = Some(Rebuild { freeze, edits });
+                if !restores.is_empty() {
+                    notes.push(format!("{}:restore-from-checkpoint {:?}", t, restores));
+                }
+                iterations[t].rebuild = Some(Rebuild { freeze, edits, restores });
             }
         }
         tracked_at.push(tracked_now.clone());
@@ -177,7 +189,12 @@ pub fn run_case(ctx: &mut Ctx, fam: &str, _k: u64, r: &mut Rng) {
             for (k, e) in &rb.edits {
                 pa[*k] = Obs { dims: e.dims.clone(), vals: if IS_F32 { e.vals().iter().map(|x| *x as f32 as f64).collect() } else { e.vals() } };
             }
-            ctx.count("iterations_after_parameter_edit", rb.edits.len() as u64);
+            for k in &rb.restores {
+                let e = &params0[*k];
+                pa[*k] = Obs { dims: e.dims.clone(), vals: if IS_F32 { e.vals().iter().map(|x| *x as f32 as f64).collect() } else { e.vals() } };
+            }
+            ctx.count("iterations_after_parameter_edit", (rb.edits.len() + rb.restores.len()) as u64);
+            ctx.count("iterations_after_checkpoint_restore", rb.restores.len() as u64);
         }
         if it.late_forward.is_some() {
             ctx.count("iterations_with_forward_before_update", 1);
